@@ -56,7 +56,7 @@ F = O.F
 
 
 def plan(tier, seed):
-    n = 34 if tier == "quick" else 1500
+    n = 300 if tier == "quick" else 1500
     return [{"shard": i, "cases": n} for i in range(NSHARDS)]
 
 
